@@ -87,7 +87,13 @@ def runSem (j : Json) : Json :=
     | .error e => Json.mkObj [("id", id), ("elab", "ok"), ("blueprint_error", e)]
     | .ok bp =>
       let ids := ((jgetD j "entity_ids").getArr?.toOption.getD #[]).map (fun x => x.getStr?.toOption.getD "")
-      let c : SemCase := { core, bp, circ := bp.toCircuit, ids, names := jgetD j "names", stm := jgetD j "signal_type_map" }
+      -- entities read through `.output` are the circuit's declared sources
+      let placed0 := ((jgetD j "placed").getArr?.toOption.getD #[]).toList.map (fun x => x.getStr?.toOption.getD "")
+      let srcIdx : List Nat := (List.range core.ents.size).filterMap (fun k =>
+        if core.nodes.any (fun nd => match nd with | .entOut e => e == k | _ => false) then
+          (placed0[k]?).bind (idxOfId ids)
+        else none)
+      let c : SemCase := { core, bp, circ := { bp.toCircuit with sources := srcIdx }, ids, names := jgetD j "names", stm := jgetD j "signal_type_map" }
       let (obs, ren) := buildObs c
       let inputs := buildInputs c
       let seed := (jnatD j "seed" 1).toUInt64
@@ -183,7 +189,12 @@ def runSem (j : Json) : Json :=
         match idxOfId c.ids src, nd.ty? with
         | some i, some ty => some (nm.node, Bind.ent i (ren ty))
         | _, _ => none)
-      let bindArr := inferBindings c.circ core.nodes roots
+      let entOutRoots : List (Nat × Bind) := (List.range core.nodes.size).filterMap (fun n =>
+        match (core.nodes[n]? : Option CNode) with
+        | some (CNode.entOut k) => (entIdx k).map (fun i => (n, Bind.many [i]))
+        | _ => none)
+      let enablePairs : List (Nat × Arg) := enableObs.filterMap (fun o => o.enable.map (fun w => (o.idx, w)))
+      let bindArr := inferBindings c.circ core.nodes (entOutRoots ++ roots) enablePairs
       let bindF : Nat → Option Bind := fun n => bindArr.getD n none
       let rank := computeRank c.circ
       let ranked := c.circ.checkRanked rank
@@ -196,7 +207,9 @@ def runSem (j : Json) : Json :=
         ("proved_names", Json.arr (if ranked && failing.isEmpty then
             -- a name is proved when its node is bound and the place it is observed at reads exactly that binding
             (obs.filterMap (fun o =>
-              if o.enable.isSome then none else
+              if let some w := o.enable then
+                (if enableIs c.circ core.nodes bindF o.idx w then some (Json.str o.name) else none)
+              else
               match bindF o.node with
               | some (.konst _) => none
               | some b =>
